@@ -36,8 +36,8 @@ MECHANISMS = [
     ('TotalDepth.DAT.DAT_parser', '_numpy_dtype'), ('TotalDepth.common.LogPass', 'FrameArray.append'),
 ]
 REQUIRED_MONITORS = ['parse_well_formed', 'corruption_rejected', 'corruption_parsed_to_model', 'can_parse_file', 'import_as_user', 'example_file']
-TEXTS_PER_SHARD = {'quick': 110, 'thorough': 3000}
-MIN_NONTRIVIAL = {'quick': 8000, 'thorough': 200000}
+TEXTS_PER_SHARD = {'quick': 70, 'thorough': 3000}
+MIN_NONTRIVIAL = {'quick': 5000, 'thorough': 200000}
 TIMEOUT_S = {'quick': 300, 'thorough': 3000}
 NSHARDS = 16
 MAX_UNKNOWN_PER_KIND = 20
